@@ -3,8 +3,10 @@ package c20
 import (
 	"fmt"
 	"os"
+	"runtime/debug"
 	"sort"
 	"strings"
+	"sync"
 
 	"github.com/gittuf/gittuf/pkg/gitinterface"
 	"github.com/gittuf/gittuf/verif/evid"
@@ -16,6 +18,7 @@ var debugReach = false
 type reachResult struct {
 	nodes, edges          int64
 	rounds                int
+	generations           int
 	luaVals               int
 	calls, callok         int64
 	shapes                int
@@ -41,6 +44,8 @@ func reachability(db *refDB, repo *gitinterface.Repository, maxRounds int) (*rea
 		return nil, err
 	}
 	defer env.Cleanup()
+	// the closure allocates and drops tens of thousands of coroutine stacks
+	defer debug.SetGCPercent(debug.SetGCPercent(400))
 	G := L.Get(lua.GlobalsIndex).(*lua.LTable)
 	res := &reachResult{}
 
@@ -79,8 +84,41 @@ func reachability(db *refDB, repo *gitinterface.Repository, maxRounds int) (*rea
 		}
 		return s
 	}
+	type batch struct{ fnew, fold, anew, aold []int }
+	pending := []batch{{}}
+	const batchCallees = 16
 	for round := 0; ; round++ {
-		script := walkerRound(fnew, fold, anew, aold, sortedKeys(pairSet), sortedKeys(dataSet))
+		if len(pending) == 0 {
+			// next generation: callees and arguments of new shape
+			for i := 0; i < len(fnew); i += batchCallees {
+				j := i + batchCallees
+				if j > len(fnew) {
+					j = len(fnew)
+				}
+				pending = append(pending, batch{fnew: fnew[i:j], aold: aold, anew: anew})
+			}
+			for i := 0; i < len(fold) && len(anew) > 0; i += batchCallees {
+				j := i + batchCallees
+				if j > len(fold) {
+					j = len(fold)
+				}
+				pending = append(pending, batch{fold: fold[i:j], anew: anew})
+			}
+			fold = append(fold, fnew...)
+			aold = append(aold, anew...)
+			fnew, anew = nil, nil
+			res.generations++
+			if len(pending) == 0 {
+				res.fixpoint = true
+				break
+			}
+			if res.generations > maxRounds {
+				break
+			}
+		}
+		b := pending[0]
+		pending = pending[1:]
+		script := walkerRound(b.fnew, b.fold, b.anew, b.aold, sortedKeys(pairSet), sortedKeys(dataSet))
 		restore := muteStdout()
 		code, err := env.RunScript(script, lua.LTable{})
 		restore()
@@ -94,9 +132,6 @@ func reachability(db *refDB, repo *gitinterface.Repository, maxRounds int) (*rea
 		res.calls, res.callok = calls, callok
 		read += len(vals)
 		all = append(all, vals...)
-		fold = append(fold, fnew...)
-		aold = append(aold, anew...)
-		fnew, anew = nil, nil
 		// provenance of coroutines
 		for _, x := range vals {
 			if x.of <= 0 || x.oa == 0 {
@@ -162,7 +197,7 @@ func reachability(db *refDB, repo *gitinterface.Repository, maxRounds int) (*rea
 					}
 					if isAPI {
 						dataSet[x.idx] = true
-					} else if !strings.Contains(s, "G:table.") && !strings.Contains(s, "G:string.") && !strings.Contains(s, "G:math.") {
+					} else if old[x.v] && !strings.Contains(s, "G:table.") && !strings.Contains(s, "G:string.") && !strings.Contains(s, "G:math.") {
 						pairSet[x.idx] = true
 					}
 				}
@@ -197,13 +232,6 @@ func reachability(db *refDB, repo *gitinterface.Repository, maxRounds int) (*rea
 			fmt.Printf("round %d: vals=%d new shapes: fnew=%d anew=%d calls=%d\n", round, len(vals), len(fnew), len(anew), calls)
 		}
 		res.rounds = round + 1
-		if len(fnew) == 0 && len(anew) == 0 {
-			res.fixpoint = true
-			break
-		}
-		if round+1 >= maxRounds {
-			break
-		}
 	}
 	// hide the walker's own bookkeeping before judging (it is not part of the sandbox)
 	res.luaVals = len(all)
@@ -230,14 +258,36 @@ func reachability(db *refDB, repo *gitinterface.Repository, maxRounds int) (*rea
 	return res, nil
 }
 
-// muteStdout silences print/_printregs of scripts (they write to os.Stdout).
+// muteStdout silences print of scripts (it writes to os.Stdout); nestable
+// and safe to use from the phases that run side by side.
+var muteState struct {
+	sync.Mutex
+	n    int
+	orig *os.File
+	null *os.File
+}
+
 func muteStdout() func() {
-	old := os.Stdout
-	if f, err := os.OpenFile(os.DevNull, os.O_WRONLY, 0); err == nil {
+	muteState.Lock()
+	defer muteState.Unlock()
+	if muteState.n == 0 {
+		f, err := os.OpenFile(os.DevNull, os.O_WRONLY, 0)
+		if err != nil {
+			return func() {}
+		}
+		muteState.orig, muteState.null = os.Stdout, f
 		os.Stdout = f
-		return func() { os.Stdout = old; f.Close() }
 	}
-	return func() {}
+	muteState.n++
+	return func() {
+		muteState.Lock()
+		defer muteState.Unlock()
+		muteState.n--
+		if muteState.n == 0 {
+			os.Stdout = muteState.orig
+			muteState.null.Close()
+		}
+	}
 }
 
 func sortedKeys(m map[int]bool) []int {
